@@ -223,6 +223,20 @@ PROPS = {
                    "Correspondence: after EVERY step of generated scenarios (sizes around the threshold, every block kind, read faults at arbitrary positions of the input, failing marshal targets, rejected reader offsets, Close in any order and twice) the number of temp files and descriptors measured on the implementation must equal the model's; zero after closing everything is judged on the implementation",
         level_note="Trusted: Lean kernel, correspondence harness (directory listing, /proc/self/fd). Modelled by hand: closers in recordbuilder.go, unmarshaler.go, block.go, httpblock.go, record.go, warcfile.go reader; diskbuffer file lifetime.",
     ),
+    "C12": dict(
+        title="A killed writer leaves only complete final files and whole-record prefixes",
+        lean_modules=["Gowarc.Props.C12"],
+        n_quick=40, n_thorough=600,
+        required_theorems=["C12_all", "C12_shape", "C12_acked", "C12_final_complete", "C12_open", "members_run", "file_run", "files_run", "reachable_closed"],
+        model_assumptions=["the model's effect log is the writer's program order for one worker (create, member bytes, optional fsync, acknowledgement, close, rename); that the implementation issues exactly these effects in this order is what the strace comparison checks on every generated history",
+                           "byte-granular kill points (one effect per byte) are a superset of the real ones (write syscalls of arbitrary chunking, including the compressor's)",
+                           "process kill, not power loss: the kernel keeps completed writes and renames atomically; page cache loss is outside the property",
+                           "one record per Write call in these workloads (the acknowledgement of a batch comes after all of its records; batches are C04/C09); Rotate concurrent with a Write is C09"],
+        design_ref="DESIGN.md section 5, C12",
+        level_text="Effect-log model of the writer with an interpreter for what is on disk after any prefix of the log; theorem for every list of files of a reachable writer state and EVERY kill point: earlier files are complete under their final names, at most one in-progress file holds whole members followed by a strict prefix of one member, "
+                   "every acknowledged record is completely in its file at its offset. Tie: the workload runs in a child under strace and the traced openat/write/fsync/close/rename/acknowledgement sequence must equal the model's log; every crash state of the trace (effect boundaries and bytes inside writes) is judged by an independent scanner; three real SIGKILLs per case at byte budgets inside records are judged on the real directory",
+        level_note="Trusted: Lean kernel, strace, the harness' trace parser and scanner. Modelled by hand: the order of file-system calls in warcfile.go (createFile, writeRecord, createWarcInfoRecord, close).",
+    ),
 }
 
 
